@@ -3119,6 +3119,9 @@ def groupby_scan(
     # avoid some roundoff error when we can.
     if by_.shape[-1] == 1 or by_.shape == grp_shape:
         array = array.astype(agg.dtype)
+        if agg.name == "nancumsum":
+            # every element is its own group: np.nancumsum([np.nan]) == [0]
+            array = np.where(isnull(array), agg.identity, array)
         if cast_to is not None:
             array = array.astype(cast_to)
         return array
